@@ -149,7 +149,7 @@ Print Assumptions C03_registration_oracle.
    stores a new mapping, invalidates, refreshes and closes the old mapping then
    accesses a closed mapping. *)
 Definition uau_init : state :=
-  (mkS HAVE (Some 0%nat) (Some 0%nat) [0%nat] [] [5] 0 false false None, [adder 1; changer SameFile]).
+  (mkS HAVE (Some 0%nat) (Some 0%nat) [0%nat] [] [5] 0 false false None true, [adder 1; changer SameFile]).
 Definition uau_sched : list nat := ([0; 0; 0; 1; 1; 1; 1; 1; 1; 1] ++ repeat 0 20)%nat.
 Theorem C03_no_fault_refuted :
   good_init (fst uau_init) (snd uau_init) /\
@@ -210,7 +210,7 @@ Print Assumptions C03_grower_must_look_up_again.
 Example C03_example_run :
   let st := run default_nops
       [0;1;2;3; 3;3;3;3;3;3; 0;0;0;0;0;0;0;0;0;0; 1;1;1;1;1;1;1;1;1;1;1; 2;2;2;2;2;2;2;2;2;2;2]%nat
-      (mkS 0 None None [] [] [] 0 false false None, [adder 2; adder 3; adder 4; changer NewFile]) in
+      (mkS 0 None None [] [] [] 0 false false None false, [adder 2; adder 3; adder 4; changer NewFile]) in
   all_done (snd st) = true /\ persisted (fst st) = 9 /\ w_extra (s_word (fst st)) = 0.
 Proof. vm_compute. repeat split; reflexivity. Qed.
 
@@ -219,13 +219,13 @@ Proof. vm_compute. repeat split; reflexivity. Qed.
    second adder interleaved with the growth ends in the same file *)
 Example C03_example_inline_growth :
   let st := run default_nops (repeat 0 40 ++ repeat 1 20)%nat
-      (mkS 0 None (Some 0%nat) [0%nat] [] [0] 0 false true None, [adder 3; adder 4]) in
+      (mkS 0 None (Some 0%nat) [0%nat] [] [0] 0 false true None true, [adder 3; adder 4]) in
   all_done (snd st) = true /\ persisted (fst st) = 7 /\ w_extra (s_word (fst st)) = 0 /\
   s_cur (fst st) = Some 1%nat /\ s_ptr (fst st) = Some 1%nat /\ s_closed (fst st) = [0%nat] /\ s_full (fst st) = false.
 Proof. vm_compute. repeat split; reflexivity. Qed.
 Example C03_example_inline_growth_interleaved :
   let st := run default_nops ([0;0;0;0;0;0;0; 1;1;1; 0;0;0; 1;1] ++ repeat 0 40 ++ repeat 1 30)%nat
-      (mkS 0 None (Some 0%nat) [0%nat] [] [0] 0 false true None, [adder 3; adder 4]) in
+      (mkS 0 None (Some 0%nat) [0%nat] [] [0] 0 false true None true, [adder 3; adder 4]) in
   all_done (snd st) = true /\ persisted (fst st) = 7 /\ w_extra (s_word (fst st)) = 0 /\
   s_closed (fst st) = [0%nat].
 Proof. vm_compute. repeat split; reflexivity. Qed.
